@@ -41,6 +41,8 @@ inductive Node where
   | file (ino : Nat)
   | dir
   | symlink (ino : Nat) (target : String)
+  /-- a named pipe made by `mkfifo` -/
+  | fifo (ino : Nat)
   deriving DecidableEq, Repr
 
 structure Handle where
@@ -56,6 +58,8 @@ structure Pipe where
   buf : Bytes
   rOpen : Bool
   wOpen : Bool
+  /-- a named FIFO whose two ends were opened read-write: never at end of file, never `EPIPE` -/
+  fifo : Bool := false
   deriving Repr
 
 structure St where
@@ -109,6 +113,8 @@ def St.openFile (s : St) (h : Nat) (name : String) (flags : Option (List Gen.Ope
     match (if creat && excl then .ok (name, lookup s.names name) else s.resolve resolveFuel name) with
     | .error e => (s, .err e)
     | .ok (_, some (.symlink _ _)) => (s, .err EEXIST)
+    -- FIFOs are never opened through the file API by the harness (the driver answers `unsupported`)
+    | .ok (_, some (.fifo _)) => (s, .err EINVAL)
     | .ok (_, some .dir) =>
       if creat && excl then (s, .err EEXIST)
       else if w || creat then (s, .err EISDIR)
@@ -158,6 +164,8 @@ def St.rename (s : St) (a b : String) : St × Out :=
       if i = j then (s, .ok) else ({ s with names := insert (remove s.names a) b na }, .ok)
     | .symlink i _, some (.symlink j _) =>
       if i = j then (s, .ok) else ({ s with names := insert (remove s.names a) b na }, .ok)
+    | .fifo i, some (.fifo j) =>
+      if i = j then (s, .ok) else ({ s with names := insert (remove s.names a) b na }, .ok)
     | _, some _ => ({ s with names := insert (remove s.names a) b na }, .ok)
 
 def St.hardlink (s : St) (a b : String) : St × Out :=
@@ -176,10 +184,22 @@ def St.symlink (s : St) (target name : String) : St × Out :=
   | some _ => (s, .err EEXIST)
   | none => ({ s with names := insert s.names name (.symlink s.nextIno target), nextIno := s.nextIno + 1 }, .ok)
 
+def St.mkfifo (s : St) (name : String) : St × Out :=
+  match lookup s.names name with
+  | some _ => (s, .err EEXIST)
+  | none => ({ s with names := insert s.names name (.fifo s.nextIno), nextIno := s.nextIno + 1 }, .ok)
+
+/-- does the name lead to a FIFO (following symbolic links)? -/
+def St.isFifo (s : St) (name : String) : Bool :=
+  match s.resolve resolveFuel name with
+  | .ok (_, some (.fifo _)) => true
+  | _ => false
+
 inductive StatOut where
   | file (len : Nat)
   | dir
   | symlink
+  | other
   | err (e : Nat)
   deriving DecidableEq, Repr
 
@@ -187,6 +207,7 @@ def St.statNode (s : St) : Option Node → StatOut
   | none => .err ENOENT
   | some .dir => .dir
   | some (.symlink _ _) => .symlink
+  | some (.fifo _) => .other
   | some (.file i) => .file (s.content i).length
 
 def St.stat (s : St) (name : String) (follow : Bool) : StatOut :=
